@@ -53,7 +53,8 @@ func (l *faultLoader) Open(p string) (io.ReadCloser, error) {
 	}
 	switch f.K {
 	case "openfail":
-		return nil, errors.New("injected open failure")
+		// the kind of error a stacked (multi) loader reports when none of its members could open the file
+		return nil, fmt.Errorf("injected open failure: %w", os.ErrNotExist)
 	case "readfail":
 		return errReader{}, nil
 	case "bad":
